@@ -33,6 +33,10 @@ struct LatCase {
     bursts: Vec<usize>,
     pause_ms: u64,
     layout: Layout,
+    /// gap between the sends of one burst (0 = back to back); always below max_delay
+    spacing_ms: u64,
+    /// the channel source is merged with a finite stream that ends at once
+    merge_with_finite: usize,
 }
 
 #[derive(Default, Debug, Clone)]
@@ -60,7 +64,12 @@ fn run_case(c: &LatCase) -> Option<LatOutcome> {
         RunOpts { watchdog: Duration::from_secs(300), quiet: Duration::from_secs(60), ..Default::default() },
         move |ctx, h| {
             let (tx, src) = ChannelSource::<u64>::new(64);
-            let mut s = ctx.stream(src).batch_mode(batch).map(|x| x).boxed();
+            let mut s = if c2.merge_with_finite > 0 {
+                let n = c2.merge_with_finite as u64;
+                ctx.stream(src).batch_mode(batch).merge(ctx.stream_iter(1_000_000..1_000_000 + n).batch_mode(batch)).boxed()
+            } else {
+                ctx.stream(src).batch_mode(batch).map(|x| x).boxed()
+            };
             for conn in &c2.conns {
                 s = match conn {
                     0 => s.shuffle().map(|x| x).boxed(),
@@ -78,6 +87,11 @@ fn run_case(c: &LatCase) -> Option<LatOutcome> {
                 let mut o = LatOutcome::default();
                 let mut next = 0u64;
                 let mut pending: std::collections::HashMap<u64, Instant> = Default::default();
+                // the elements of the finite side are available from the start
+                for i in 0..c3.merge_with_finite as u64 {
+                    pending.insert(1_000_000 + i, Instant::now());
+                    o.sent += 1;
+                }
                 for burst in &c3.bursts {
                     for _ in 0..*burst {
                         pending.insert(next, Instant::now());
@@ -86,6 +100,9 @@ fn run_case(c: &LatCase) -> Option<LatOutcome> {
                             break;
                         }
                         next += 1;
+                        if c3.spacing_ms > 0 {
+                            std::thread::sleep(Duration::from_millis(c3.spacing_ms));
+                        }
                     }
                     // the source is now idle and open: wait for the burst
                     let deadline = Instant::now() + bound;
@@ -145,13 +162,20 @@ pub fn run(args: &Args, report: &mut Report) {
             bursts: (0..rng.usize(1, 4)).map(|_| rng.usize(1, 6)).collect(),
             pause_ms: *rng.pick(&[0u64, 3, 30, 120]),
             layout: rng.pick(&[Layout::Local(1), Layout::Local(2), Layout::Local(4), Layout::Remote(vec![1, 1]), Layout::Remote(vec![2, 1])]).clone(),
+            spacing_ms: 0,
+            merge_with_finite: if rng.chance(1, 3) { rng.usize(1, 20) } else { 0 },
         };
+        let mut c = c;
+        if rng.chance(1, 2) {
+            // elements trickle in one at a time, faster than the batch delay, then silence
+            c.spacing_ms = (c.max_delay_ms / 4).max(1);
+        }
         let h = mix(hash_str(&format!("{c:?}")), case);
         let detail = |o: Option<&LatOutcome>, err: Option<String>| {
             let mut lat = o.map(|o| o.latencies_us.clone()).unwrap_or_default();
             lat.sort();
             json!({"engine":"latmon","case":case,"shard":args.shard,"seed":args.seed,"depth":c.depth,"connections":c.conns,"mode": if c.adaptive {"adaptive"} else {"fixed"},
-                "batch_size":c.batch_size,"max_delay_ms":c.max_delay_ms,"bursts":c.bursts,"pause_ms":c.pause_ms,"layout":c.layout.name(),
+                "batch_size":c.batch_size,"max_delay_ms":c.max_delay_ms,"bursts":c.bursts,"pause_ms":c.pause_ms,"spacing_ms":c.spacing_ms,"merged_with_finite_stream_of":c.merge_with_finite,"layout":c.layout.name(),
                 "latency_us_p50": lat.get(lat.len() / 2), "latency_us_max": lat.last(),
                 "bound_ms": 2000 + 100 * c.depth as u64 * c.max_delay_ms, "error":err})
         };
